@@ -221,6 +221,8 @@ def process(R, results, mlref, mismatches):
             R.hist['notation' if res['notation'] else 'notation-free'] = R.hist.get('notation' if res['notation'] else 'notation-free', 0) + 1
             for k, v in res['stats'].items():
                 R.hist['rule:' + k] = R.hist.get('rule:' + k, 0) + v
+            for fld in res.get('mvfields', []):
+                R.hist['metavar-field:' + fld] = R.hist.get('metavar-field:' + fld, 0) + 1
             if res.get('d3'):
                 R.hist['gen-under-notation(D3 flag)'] = R.hist.get('gen-under-notation(D3 flag)', 0) + 1
             R.sample({'term_spec': res['case']['term'], 'verdicts': {n: res['runs'][n]['ok'] for n, _, _ in STACKS}}, limit=4)
@@ -231,6 +233,64 @@ def process(R, results, mlref, mismatches):
                 a = per[i]['static']
                 if a != 'NONE':
                     mismatches.append((label, 'static_conc', 'verdict', a[:80], 'constructor raised ' + res.get('build_exc', '')))
+
+
+PIPE = ['basic', 'stateful', 'counting', 'serializing', 'pretty', 'finalize-memo/stateful', 'finalize-memo/serializing',
+        'finalize-memo/pretty', 'instopt/finalize-memo/serializing']
+
+
+def process_pipeline(R, results, mlref, mismatches):
+    """the optimising pipeline as an interpreter stack: the memo set is what the REAL CountingInterpreter.finalize()
+    suggested.  Oracle: all module-level runs agree; finalize() respects the free memory slots.  Tie: model bytes."""
+    lines, idx = [], []
+    for i, r in enumerate(results):
+        if r.get('built') and 'model' in r and 'S' in r:
+            md = r['model']
+            lines.append(f"M 0 {md['axs']} {md['claims']} {md['proofs']}")
+            idx.append((i, 'serializing'))
+            lines.append(f"M 1 {r['S']} {md['axs']} {md['claims']} {md['proofs']}")
+            idx.append((i, 'finalize-memo/serializing'))
+    ans = dict(zip(idx, C.run_lines(mlref, lines))) if lines else {}
+    for i, r in enumerate(results):
+        if not r.get('built'):
+            R.hist['pipeline:module-not-built'] = R.hist.get('pipeline:module-not-built', 0) + 1
+            continue
+        runs = r['runs']
+        verd = {n: runs[n]['ok'] for n in PIPE if n in runs}
+        for n in verd:
+            R.case(('pipeline', json.dumps(r['mod'])[:2000], n), nontrivial=True)
+        replay = {'pipeline_module': r['mod'], 'verdicts': {n: (runs[n]['ok'], runs[n].get('exc')) for n in verd},
+                  'n_axioms': r.get('n_axioms'), 'memory_at_finalize': r.get('mem_at_finalize'), 'finalize_set_size': r.get('S_size'),
+                  'how': './check C08 --replay <this file>'}
+        kind = 'pipeline:agree-ok' if all(verd.values()) else 'pipeline:agree-fail' if not any(verd.values()) else 'pipeline:disagree'
+        if 'finalize_exc' in r:
+            R.violation('pipeline:finalize-raises:' + r['finalize_exc'], 'CountingInterpreter.finalize raised after a successful counting pass', replay)
+        if r.get('S_size') is not None and r['S_size'] + r['mem_at_finalize'] > 256 and r['S_size'] > 0:
+            R.violation('pipeline:CountingInterpreter.finalize:suggestions-exceed-free-memory-slots',
+                        f"finalize() suggests {r['S_size']} patterns with {r['mem_at_finalize']} of the 256 slots already taken", replay)
+        if len(set(verd.values())) > 1:
+            ser_fam = [n for n in verd if 'serializing' in n]
+            if all(verd[n] for n in verd if n not in ser_fam) and not any(verd[n] for n in ser_fam):
+                kind = 'pipeline:byte-range(all serialisers refuse; documented limit)'
+            else:
+                fail = ','.join(n + '(' + str(runs[n].get('exc')) + ')' for n in verd if not verd[n])
+                R.violation('pipeline-disagree:' + fail, 'module-level runs disagree; the memo set is the real finalize() output', replay)
+        R.hist[kind] = R.hist.get(kind, 0) + 1
+        R.hist['pipeline:axioms>=128' if r.get('n_axioms', 0) >= 128 else 'pipeline:axioms<128'] = \
+            R.hist.get('pipeline:axioms>=128' if r.get('n_axioms', 0) >= 128 else 'pipeline:axioms<128', 0) + 1
+        if r.get('S_size') is not None and r['S_size'] + r['mem_at_finalize'] >= 250:
+            R.hist['pipeline:memory>=250-slots'] = R.hist.get('pipeline:memory>=250-slots', 0) + 1
+        for n in ('serializing', 'finalize-memo/serializing'):
+            a = ans.get((i, n))
+            if a is None:
+                continue
+            py = runs.get(n)
+            if py is None:
+                continue
+            if a.startswith('OK') != py['ok']:
+                mismatches.append(('pipeline', n, 'verdict', a[:80], (py['ok'], py.get('exc'))))
+            elif py['ok'] and a.split()[1:4] != py['bytes']:
+                mismatches.append(('pipeline', n, 'bytes', a[:120], [b[:60] for b in py['bytes']]))
 
 
 def corpus_cases():
@@ -272,6 +332,16 @@ def run(tier, seed):
             if 'runner_error' in r:
                 mismatches.append(('runner', 'corpus', 'error', r['runner_error'][-800:], ''))
         process(R, results, mlref, mismatches)
+        # the real counting -> finalize() -> memoizing pipeline on modules with memory pressure near the 256 slots
+        pk = 2 if tier == 'quick' else 24
+        pipe = runner_batch([{'cmd': 'pipeline', 'seed': f'{seed}:{CID}:pressure:{j}', 'n': 2} for j in range(pk // 2)], timeout=3000)
+        pres = []
+        for g in pipe:
+            if isinstance(g, dict):
+                mismatches.append(('runner', 'pipeline', 'error', g.get('runner_error', '')[-800:], ''))
+            else:
+                pres += g
+        process_pipeline(R, pres, mlref, mismatches)
 
     if proof_broken and not R.violations:
         R.violation('proof-broken', 'Coq proof stage failed',
@@ -297,6 +367,18 @@ def run(tier, seed):
 def replay(path):
     d = json.load(open(path))
     case = d.get('case') or d.get('replay', {}).get('case')
+    pm = d.get('replay', {}).get('pipeline_module') if isinstance(d.get('replay'), dict) else None
+    if pm is not None:
+        req = {'cmd': 'pipeline', **pm['regenerate']} if 'regenerate' in pm else {'cmd': 'pipeline', 'mod': pm}
+        out = runner_batch([req])[0]
+        for r in (out if isinstance(out, list) else [out]):
+            if r.get('mod', {}).get('proofs') != pm.get('proofs'):
+                continue
+            print('axioms', r.get('n_axioms'), 'memory at finalize', r.get('mem_at_finalize'), 'finalize() set size', r.get('S_size'))
+            for n in PIPE:
+                if n in r.get('runs', {}):
+                    print(f'{n:36s}', 'OK' if r['runs'][n]['ok'] else 'FAIL(' + str(r['runs'][n].get('exc')) + ': ' + str(r['runs'][n].get('msg')) + ')')
+        return 0
     if case is None:
         print(json.dumps(d, indent=1)[:3000])
         return 0
